@@ -1155,3 +1155,24 @@ Lemma stmt_witnesses :
   /\ y_stmt FGo CHostDirect (VInt 1) (VInt 2) = VInt 2 /\ y_stmt FDefer CScriptFunc (VInt 1) (VInt 2) = VInt 2
   /\ g_stmt (VInt 1) (VInt 2) = VInt 1.
 Proof. repeat split; reflexivity. Qed.
+
+(* ------------------------------------------------------------------ *)
+(** * Element indexes of composite literals *)
+
+Lemma lit_unkeyed n p : lit_indexes p (repeat None n) = seq p n.
+Proof. revert p; induction n; intros p; simpl; [reflexivity|]. f_equal. apply IHn. Qed.
+
+Lemma lit_keyed ks p : lit_indexes p (map Some ks) = ks.
+Proof. revert p; induction ks; intros p; simpl; [reflexivity|]. f_equal. apply IHks. Qed.
+
+Lemma lit_after_key j n p : lit_indexes p (Some j :: repeat None n) = seq j (S n).
+Proof. simpl. f_equal. apply lit_unkeyed. Qed.
+
+Lemma lit_example : y_lit [Some 1; None; Some 0] = ([1; 2; 0], 3) /\ y_lit [Some 3; None] = ([3; 4], 5).
+Proof. split; reflexivity. Qed.
+
+Lemma lit_all :
+  (forall n p, lit_indexes p (repeat None n) = seq p n)
+  /\ (forall ks p, lit_indexes p (map Some ks) = ks)
+  /\ (forall j n p, lit_indexes p (Some j :: repeat None n) = seq j (S n)).
+Proof. exact (conj lit_unkeyed (conj lit_keyed lit_after_key)). Qed.
